@@ -2,6 +2,7 @@
 //! input  = FIXTURE|MUTSEED|SCRIPT|LANG|FEAT|KERN|DIR|TEXT   (TEXT = comma-separated hex code points;
 //!          MUTSEED 0 = pristine font, otherwise a seeded mutation of the GSUB/GPOS/GDEF/kern/morx tables;
 //!          FEAT = `mask:<bits>` or `custom:tag.tag...`; DIR = l|r ; KERN = 0|1)
+//!        | S|<C04 case line>   a synthetic GSUB/GDEF program run through gsub::apply (whole-run kinds only)
 //!        | G|<C05 case line>   a synthetic GPOS/GDEF/kern program run through gpos::apply + glyph_positions
 //! output = run:<n>:<maxgid>:<ok|err>:<flags>  where flags is a list of well-formedness violations
 //!          (empty = well-formed) | panic:<file>:<fn>:<kind> | slow:<ms>
@@ -24,6 +25,36 @@ use std::sync::Mutex;
 #[path = "c05.rs"]
 #[allow(dead_code)]
 mod c05;
+/// likewise the C04 harness (synthetic GSUB programs: all lookup types, nested lookups including
+/// cycles, lookup flags, feature lists); only whole-run cases (gsub::apply) are used here
+#[path = "c04.rs"]
+#[allow(dead_code)]
+mod c04;
+
+/// the third top-level element of a C04 case tree `M (gdef layout run glyphs)` starts with the run kind:
+/// 0 = gsub::apply with Features::Custom, 2 = with Features::Mask, 1 = gsub_apply_lookup on a window
+fn c04_whole_run(case: &str) -> bool {
+    let b = case.as_bytes();
+    let (mut depth, mut elem, mut i) = (0i32, 0, 0);
+    while i < b.len() {
+        match b[i] {
+            b'(' => {
+                depth += 1;
+                if depth == 2 {
+                    elem += 1;
+                    if elem == 3 {
+                        let rest = &case[i + 1..];
+                        return rest.starts_with("0 ") || rest.starts_with("2 ");
+                    }
+                }
+            }
+            b')' => depth -= 1,
+            _ => {}
+        }
+        i += 1;
+    }
+    false
+}
 
 static LAST_PANIC: Mutex<String> = Mutex::new(String::new());
 
@@ -55,6 +86,15 @@ const FONTS: &[(&str, &str)] = &[
     ("malayalam/Rachana-Regular.ttf", "mlym"),
     ("khmer/Battambang-Regular.ttf", "khmr"),
     ("myanmar/Padauk-Regular.ttf", "mym2"),
+    ("syriac/SyrCOMEdessa.otf", "syrc"),
+    ("syriac/SyrCOMAntioch.otf", "syrc"),
+    ("noto/NotoSansSyriacEastern-Regular.ttf", "syrc"),
+    ("oriya/lohit_or.ttf", "ory2"),
+    ("noto/NotoSansTamil-Regular.ttf", "tml2"),
+    ("noto/NotoSansTelugu-Regular.ttf", "tel2"),
+    ("noto/NotoSansSinhala-Regular.ttf", "sinh"),
+    ("noto/NotoSansThai-Regular.ttf", "thai"),
+    ("noto/NotoSansLao-Regular.ttf", "lao "),
 ];
 
 const SCRIPTS: &[&str] = &[
@@ -168,6 +208,11 @@ fn judge_run(infos: &[Info], input: &[char], num_glyphs: u16, pristine: bool) ->
 }
 
 fn run_case(input: &str) -> String {
+    if let Some(case) = input.strip_prefix("S|") {
+        // synthetic substitution program over the whole run: totality only (C04 judges the glyphs)
+        let r = c04::run(case);
+        return if r == "panic" { format!("panic:{}", LAST_PANIC.lock().unwrap()) } else { "run:0:0:ok:".to_string() };
+    }
     if let Some(case) = input.strip_prefix("G|") {
         // synthetic positioning program: only totality is judged here (C05 judges the positions)
         let r = c05::run(case);
@@ -241,6 +286,8 @@ fn run_case(input: &str) -> String {
 // ---- generation
 const LATIN: &[u32] = &[0x41, 0x66, 0x69, 0x6c, 0x20, 0x31, 0x2f, 0x32, 0x301, 0x300, 0x327, 0xe9, 0x200d, 0x200c, 0xfe0f, 0x1f600];
 const ARABIC: &[u32] = &[0x627, 0x628, 0x644, 0x645, 0x647, 0x64a, 0x64b, 0x64e, 0x650, 0x651, 0x652, 0x670, 0x6e1, 0x6d6, 0x640, 0x200d, 0x200c, 0x20, 0x661, 0x710, 0x712];
+// letters (Alaph first), dotless/transparent marks, abbreviation mark, joiners, tatweel
+const SYRIAC: &[u32] = &[0x710, 0x710, 0x712, 0x715, 0x717, 0x71d, 0x720, 0x722, 0x72a, 0x72c, 0x711, 0x730, 0x733, 0x736, 0x73a, 0x740, 0x70f, 0x200d, 0x200c, 0x20, 0x640, 0x628];
 const DEVA: &[u32] = &[0x915, 0x937, 0x930, 0x93f, 0x940, 0x94d, 0x93c, 0x902, 0x903, 0x905, 0x906, 0x947, 0x94b, 0x200d, 0x200c, 0x25cc, 0x966, 0x20];
 const BENG: &[u32] = &[0x995, 0x9af, 0x9b0, 0x9bc, 0x9bf, 0x9c7, 0x9cb, 0x9cc, 0x9cd, 0x9d7, 0x981, 0x200d, 0x200c, 0x20];
 const KNDA: &[u32] = &[0xc95, 0xcb0, 0xccd, 0xcbc, 0xcbf, 0xcc6, 0xcca, 0xcd5, 0xcd6, 0x200d, 0x200c];
@@ -251,7 +298,8 @@ const THAI: &[u32] = &[0xe01, 0xe33, 0xe34, 0xe48, 0xe49, 0xe4d, 0xe32, 0xeb3, 0
 
 fn alphabet(script: &str) -> &'static [u32] {
     match script {
-        "arab" | "syrc" => ARABIC,
+        "arab" => ARABIC,
+        "syrc" => SYRIAC,
         "deva" | "dev2" | "gujr" | "gjr2" | "guru" | "gur2" | "orya" | "ory2" | "taml" | "tml2" | "telu" | "tel2" | "sinh" => DEVA,
         "beng" | "bng2" => BENG,
         "knda" | "knd2" => KNDA,
@@ -271,6 +319,7 @@ fn shift_script(cp: u32, font_script: &str) -> u32 {
         "orya" | "ory2" => 0xb00,
         "taml" | "tml2" => 0xb80,
         "telu" | "tel2" => 0xc00,
+        "sinh" => 0xd80,
         _ => 0x900,
     };
     if (0x900..0x980).contains(&cp) {
@@ -283,6 +332,12 @@ fn shift_script(cp: u32, font_script: &str) -> u32 {
 fn gen(rng: &mut Rng) -> String {
     if rng.chance(1, 8) {
         return format!("G|{}", c05::gen(rng));
+    }
+    if rng.chance(1, 8) {
+        let case = c04::gen(rng);
+        if c04_whole_run(&case) {
+            return format!("S|{}", case);
+        }
     }
     let (font, fscript) = *rng.pick(FONTS);
     let script = if rng.chance(3, 4) { fscript } else { *rng.pick(SCRIPTS) };
